@@ -257,8 +257,56 @@ pub fn size_in_bytes(a: &Any) -> usize {
     with_any!(a, s => s.size_in_bytes())
 }
 
+thread_local! {
+    /// 0: plain write..drop.  k != 0: the same shapes through a history derived from k, with finalize
+    /// calls and (rejected) writes of another shape type interleaved
+    static ROUTE: std::cell::Cell<u64> = std::cell::Cell::new(0);
+}
+
+/// run `f` with every `write_files` call inside it routed through history `k`
+pub fn with_route<R>(k: u64, f: impl FnOnce() -> R) -> R {
+    ROUTE.with(|r| r.set(k));
+    let out = f();
+    ROUTE.with(|r| r.set(0));
+    out
+}
+
+fn write_files_routed(with_shx: bool, shapes: &[Any], k: u64) -> (Vec<u8>, Vec<u8>) {
+    let shp = LogDst::new();
+    let shx = LogDst::new();
+    let mut rng = crate::gen::Rng(k);
+    {
+        let mut w = if with_shx { ShapeWriter::with_shx(shp.clone(), shx.clone()) } else { ShapeWriter::new(shp.clone()) };
+        for (i, a) in shapes.iter().enumerate() {
+            if rng.chance(1, 3) {
+                w.finalize().unwrap();
+            }
+            if i > 0 && rng.chance(1, 3) {
+                // a write of another shape type: must be rejected and leave no trace
+                let r = match a {
+                    Any::Point(_) => w.write_shape(&Polyline::new(vec![Point::new(1.0, 2.0), Point::new(3.0, 4.0)])),
+                    _ => w.write_shape(&Point::new(1.0, 2.0)),
+                };
+                assert!(r.is_err(), "a write of another shape type was accepted");
+                if rng.chance(1, 2) {
+                    w.finalize().unwrap();
+                }
+            }
+            with_any!(a, s => w.write_shape(s).unwrap());
+        }
+        if rng.chance(1, 2) {
+            w.finalize().unwrap();
+        }
+    }
+    (shp.data(), shx.data())
+}
+
 /// write shapes with the real writer into in-memory destinations and drop it
 pub fn write_files(with_shx: bool, shapes: &[Any]) -> (Vec<u8>, Vec<u8>) {
+    let k = ROUTE.with(|r| r.get());
+    if k != 0 {
+        return write_files_routed(with_shx, shapes, k);
+    }
     let shp = LogDst::new();
     let shx = LogDst::new();
     {
